@@ -5,6 +5,7 @@ import Xc.Spec.DesTables
 import Xc.Gen.DesTables
 import Xc.Lemmas.Feistel
 import Xc.Lemmas.DesInv
+import Xc.Lemmas.DesRound
 namespace Xc.C17
 open Xc Xc.Spec.DesT
 
@@ -67,5 +68,49 @@ theorem C17_ip_fp (p : UInt32 × UInt32) :
 theorem C17_key_parity (key key' : Bytes) (h : ∀ i, i < 8 → (key.getD i 0) >>> 1 = (key'.getD i 0) >>> 1) :
     Des.setKey key = Des.setKey key' :=
   Des.setKey_parity key key' h
+
+
+/-- **the round function is FIPS 46-3's**: the table-driven round of `des_crypt_block` - E by masks and shifts, crypt(3)'s salt
+    exchange, `psbox[b][m_sbox[b][…]]` for b = 0…3 - computes `L' = R`, `R' = L ⊕ P(S(E(R) ⊕ K))` as defined bit by bit from the FIPS
+    tables E, S1…S8, P (`Spec.DesT.fipsF`; salt 0 is plain DES), for all 2^32 · 2^32 halves, every salt and every 48-bit round key -/
+theorem C17_round_is_fips (salt l r kl kr : UInt32) (hkl : kl.toNat < 2 ^ 24) (hkr : kr.toNat < 2 ^ 24) :
+    Des.round salt l r kl kr = (r, l ^^^ fipsF salt r kl kr) :=
+  Des.round_fips salt l r kl kr hkl hkr
+
+/-- `des_set_key` only produces round keys of two 24-bit halves, so the hypothesis of `C17_round_is_fips` holds in every call -/
+theorem C17_round_keys_24bit (key : Bytes) (salt : Nat) (decrypt : Bool) :
+    ∀ k ∈ Des.keyList (Des.mkCtx key salt) decrypt, k.1.toNat < 2 ^ 24 ∧ k.2.toNat < 2 ^ 24 :=
+  Des.keyList_24 key salt decrypt
+
+/-- a whole pass of `des_crypt_block` (sixteen table-driven rounds and the final exchange) is sixteen FIPS rounds, for every key,
+    salt, direction and block -/
+theorem C17_pass_is_fips (key : Bytes) (salt : Nat) (decrypt : Bool) (p : UInt32 × UInt32) :
+    Des.pass (Des.saltBits salt) (Des.keyList (Des.mkCtx key salt) decrypt) p =
+      Des.passFips (Des.saltBits salt) (Des.keyList (Des.mkCtx key salt) decrypt) p :=
+  Des.pass_fips _ _ (Des.keyList_24 key salt decrypt) p
+
+/-- the table-driven initial and final permutations are IP and IP⁻¹ of FIPS 46-3 on all 2^64 blocks -/
+theorem C17_ip_is_fips (p : UInt32 × UInt32) : Des.permLL Gen.des_ip_maskl Gen.des_ip_maskr p = perm64 IP p := Des.ip_fips p
+theorem C17_fp_is_fips (p : UInt32 × UInt32) : Des.permLL Gen.des_fp_maskl Gen.des_fp_maskr p = perm64 IPinv p := Des.fp_fips p
+
+/-- **`des_crypt_block` is DES as FIPS 46-3 defines it**, given the round keys: IP, `count` times (sixteen FIPS rounds and the exchange
+    of the halves), IP⁻¹, on the big-endian halves of the block - for every key, salt, count, direction and 8-byte input -/
+theorem C17_block_is_fips (key : Bytes) (salt : Nat) (x : Bytes) (count : Nat) (decrypt : Bool) :
+    Des.cryptBlock (Des.mkCtx key salt) x count decrypt =
+      toBe32 (Des.blockFips (Des.saltBits salt) (Des.keyList (Des.mkCtx key salt) decrypt) (if count = 0 then 1 else count) (be32 x 0, be32 x 4)).1 ++
+      toBe32 (Des.blockFips (Des.saltBits salt) (Des.keyList (Des.mkCtx key salt) decrypt) (if count = 0 then 1 else count) (be32 x 0, be32 x 4)).2 :=
+  Des.cryptBlock_fips key salt x count decrypt
+
+/-- **permuted choice 1 and 2 of the key schedule are FIPS 46-3's**: the table passes of `des_set_key` over the upper seven bits of the
+    key bytes select C0, D0 by PC-1, and the table passes over the rotated halves select the round key by PC-2, for every input -/
+theorem C17_pc1_is_fips (raw0 raw1 : UInt32) :
+    (Des.or8 Des.keyPermL (Des.sevenOfKey raw0 raw1), Des.or8 Des.keyPermR (Des.sevenOfKey raw0 raw1)) = selN 32 PC1 28 (raw0, raw1) :=
+  Des.pc1_fips raw0 raw1
+theorem C17_pc2_is_fips (t0 t1 : UInt32) :
+    (Des.or8 Des.compL (Des.sevenOfT t0 t1), Des.or8 Des.compR (Des.sevenOfT t0 t1)) = selN 28 PC2 24 (t0 &&& 0x0fffffff, t1 &&& 0x0fffffff) :=
+  Des.pc2_fips t0 t1
+
+/-- the FIPS cipher function is not trivially constant: a concrete value (R = 0, K = 0: every S-box sees the group 000000) -/
+example : fipsF 0 0 0 0 = 0xd8d8dbbc := by decide +kernel
 
 end Xc.C17
